@@ -335,8 +335,16 @@ func loadKnown(path string) ([]knownFinding, []string, error) {
 		if !strings.HasPrefix(ln, "finding:") {
 			continue
 		}
-		f := strings.Fields(strings.TrimPrefix(ln, "finding:"))
+		body := strings.TrimSpace(strings.TrimPrefix(ln, "finding:"))
 		var k knownFinding
+		// key="..." may contain spaces
+		if i := strings.Index(body, `key="`); i >= 0 {
+			if j := strings.Index(body[i+5:], `"`); j >= 0 {
+				k.Key = body[i+5 : i+5+j]
+				body = body[:i] + body[i+5+j+1:]
+			}
+		}
+		f := strings.Fields(body)
 		rest := []string{}
 		for _, t := range f {
 			switch {
